@@ -28,8 +28,8 @@
 #include "mir-gen.h"
 
 #define NSTK 1024
-#define VALS_SIZE 8192
-#define OUTS_SIZE 8192
+#define VALS_SIZE 16384
+#define OUTS_SIZE 16384
 
 extern unsigned char c05_img[256 + NSTK], c05_ret[80], c06_in[256 + NSTK], c06_out[192];
 extern void c05_probe (void);
@@ -191,17 +191,34 @@ static void run_case (char *id, char *mode, char *engine, char *target, char *mi
     addr = f->addr;
   }
   if (!c06) {
+    /* a session: caller, caller1, caller2 ... run one after the other in the same context */
     unhex (iohex, c05_ret, sizeof (c05_ret));
-    if (gen_p || lazy_p) {
-      ((void (*) (void)) addr) ();
-    } else {
-      MIR_val_t v;
-      MIR_interp (ctx, f, &v, 0);
+    printf ("%s ok vals=%llx", id, (unsigned long long) (uintptr_t) c05_vals);
+    for (int k = 0; k < 8; k++) {
+      char nm[32];
+      if (k == 0)
+        strcpy (nm, "caller");
+      else
+        sprintf (nm, "caller%d", k);
+      MIR_item_t fk = find_func (ctx, nm);
+      if (fk == NULL) break;
+      memset (c05_img, 0, sizeof (c05_img));
+      if (gen_p) {
+        ((void (*) (void)) MIR_gen (ctx, fk)) ();
+      } else if (lazy_p) {
+        ((void (*) (void)) fk->addr) ();
+      } else {
+        MIR_val_t v;
+        MIR_interp (ctx, fk, &v, 0);
+      }
+      if (k == 0)
+        printf (" img=");
+      else
+        printf (" img%d=", k);
+      puthex (stdout, c05_img, sizeof (c05_img));
     }
-    printf ("%s ok vals=%llx img=", id, (unsigned long long) (uintptr_t) c05_vals);
-    puthex (stdout, c05_img, sizeof (c05_img));
     printf (" outs=");
-    puthex (stdout, c05_outs, 256);
+    puthex (stdout, c05_outs, 2048);
     printf (" seen=");
     puthex (stdout, c05_seen, 1024);
     printf ("\n");
